@@ -138,6 +138,14 @@ struct Dumper {
     }
     OS << "]";
   }
+  void fmf(const FPMathOperator *O) {
+    FastMathFlags F = O->getFastMathFlags();
+    if (!F.any()) return;
+    OS << ",\"fmf\":\"";
+    if (F.allowReassoc()) OS << "reassoc "; if (F.noNaNs()) OS << "nnan "; if (F.noInfs()) OS << "ninf "; if (F.noSignedZeros()) OS << "nsz ";
+    if (F.allowReciprocal()) OS << "arcp "; if (F.allowContract()) OS << "contract "; if (F.approxFunc()) OS << "afn ";
+    OS << "\"";
+  }
   void tbaa(const Instruction &I) {
     if (MDNode *N = I.getMetadata(LLVMContext::MD_tbaa)) {
       // struct-path tag: (base, access, offset); print access type name
@@ -189,7 +197,7 @@ struct Dumper {
           OS << ",\"callee\":";
           if (auto *CF = C->getCalledFunction()) OS << "\"" << esc(CF->getName()) << "\""; else OS << "null";
           OS << ",\"ops\":["; bool x = true; for (auto &U : C->args()) { if (!x) OS << ","; x = false; OS << ref(U.get()); } OS << "]";
-          if (auto *FPO = dyn_cast<FPMathOperator>(&I)) if (FPO->getFastMathFlags().any()) OS << ",\"fmf\":true";
+          if (auto *FPO = dyn_cast<FPMathOperator>(&I)) fmf(FPO);
         } else if (auto *P = dyn_cast<PHINode>(&I)) {
           OS << ",\"inc\":["; for (unsigned i = 0; i < P->getNumIncomingValues(); ++i) { if (i) OS << ","; OS << "[" << id(P->getIncomingBlock(i)) << "," << ref(P->getIncomingValue(i)) << "]"; } OS << "]";
         } else if (auto *SW = dyn_cast<SwitchInst>(&I)) {
@@ -209,7 +217,7 @@ struct Dumper {
           if (auto *S = dyn_cast<StoreInst>(&I)) { OS << ",\"bytes\":" << DL.getTypeStoreSize(S->getValueOperand()->getType()).getFixedSize() << ",\"align\":" << S->getAlign().value(); tbaa(I); }
           if (auto *O = dyn_cast<OverflowingBinaryOperator>(&I)) { OS << ",\"nsw\":" << (O->hasNoSignedWrap() ? "true" : "false") << ",\"nuw\":" << (O->hasNoUnsignedWrap() ? "true" : "false"); }
           if (auto *E = dyn_cast<PossiblyExactOperator>(&I)) { if (E->isExact()) OS << ",\"exact\":true"; }
-          if (auto *FPO = dyn_cast<FPMathOperator>(&I)) if (FPO->getFastMathFlags().any()) OS << ",\"fmf\":true";
+          if (auto *FPO = dyn_cast<FPMathOperator>(&I)) fmf(FPO);
         }
         dbg(I);
         OS << "}";
